@@ -36,7 +36,7 @@ arguments. For more detailed descriptions, see the respective docstrings.
 # external packages
 import gc
 from typing import List, Union, Dict, Optional, Tuple, Callable
-from copy import deepcopy
+from copy import copy, deepcopy
 from warnings import warn
 import pandas as pd
 from pandas import DataFrame, MultiIndex
@@ -1086,7 +1086,12 @@ class CircuitTemplate(AbstractBaseTemplate):
         net = self.circuits if self.circuits else self.nodes
         net_node = net[node[0]]
         if isinstance(net_node, CircuitTemplate):
-            net_node.add_node_template(node[1:], template=template)
+            # copy on write: the same sub-circuit object may be used for several branches of the hierarchy, and only
+            # the addressed branch may change
+            sub = copy(net_node)
+            sub.nodes, sub.circuits = dict(net_node.nodes), dict(net_node.circuits)
+            net[node[0]] = sub
+            sub.add_node_template(node[1:], template=template)
         else:
             self.nodes[node[0]] = template
 
